@@ -202,8 +202,10 @@ func (l *Logger) Prompt(color Color, prompt string, defaultValue string, continu
 	l.Outf(color, "%s [%s/%s]: ", prompt, strings.ToLower(continueValues[0]), strings.ToUpper(defaultValue))
 
 	reader := bufio.NewReader(l.Stdin)
+	// When the input ends at the prompt (Ctrl-D, an exhausted pipe), what was
+	// typed so far is the answer: nothing means the default
 	input, err := reader.ReadString('\n')
-	if err != nil {
+	if err != nil && !errors.Is(err, io.EOF) {
 		return err
 	}
 
